@@ -76,7 +76,7 @@ def bounded_oracle(case, impl, model):
     # arena can ever hold more than threshold + (objects of one statement) slots, whatever the number of iterations
     for k in ("nlists", "nrecords"):
         na, nb = int(a.extra.get(k, -1)), int(b.extra.get(k, -1))
-        if nb > 1000 + 32 or nb > na + 32:
+        if nb > 1000 + 32 or na > 1000 + 32:
             probs.append(f"route {case.info['route']}: {k} is {na} after {case.info['iters'][0]} iterations and {nb} after {case.info['iters'][1]} (bound 1032)")
     return probs
 
